@@ -345,6 +345,7 @@ def inline_method_calls(cls: ast.ClassDef, fn: ast.FunctionDef, keep: tuple[str,
         if isinstance(st, ast.FunctionDef):
             methods.setdefault(st.name, []).append(st)
     counter = [0]
+    followed: list[str] = []
 
     def helper_of(call):
         f = call.func
@@ -396,6 +397,7 @@ def inline_method_calls(cls: ast.ClassDef, fn: ast.FunctionDef, keep: tuple[str,
                     return None
                 bound[name] = defaults[name]
         counter[0] += 1
+        followed.append(h.name)
         sfx = f"__{h.name}_{counter[0]}"
         body = copy.deepcopy(body_no_doc(h))
         local = set(pos + kwonly)
@@ -459,4 +461,5 @@ def inline_method_calls(cls: ast.ClassDef, fn: ast.FunctionDef, keep: tuple[str,
         if not t.changed:
             break
     ast.fix_missing_locations(new)
+    new.c14_inlined = followed
     return new
